@@ -50,9 +50,13 @@ def mk(seed, sub, exit_at, gone_before=False):
 
 def run_wait(arg):
     """one scenario; returns dict(trace=[(t, kind, subj)], out=outcome, t_end)"""
-    seed, sub, timeout, exit_at, eintr, overshoot, gone_before = arg
+    seed, sub, timeout, exit_at, eintr, overshoot, gone_before = arg[:7]
+    wall_step = arg[7] if len(arg) > 7 else None
     import psutil
     w, p = mk(seed, sub, exit_at)
+    if wall_step:
+        # the wall clock is stepped (NTP, date -s, VM resume) while the call waits: deadlines are monotonic-time affairs
+        w.at(w.mono + wall_step[0], lambda ww: setattr(ww, "btime", ww.btime + wall_step[1]))
     pr = psutil.Process(p.pid)
     t0 = w.mono
     if gone_before:
@@ -95,7 +99,7 @@ def run_wait(arg):
 
 
 def judge_wait(arg, r):
-    seed, sub, timeout, exit_at, eintr, overshoot, gone_before = arg
+    seed, sub, timeout, exit_at, eintr, overshoot, gone_before = arg[:7]
     bad = []
     out, tr = r["out"], r["trace"]
     e = 0.0 if gone_before else (exit_at if exit_at is not None else math.inf)
@@ -191,6 +195,13 @@ def scenarios(seed, thorough):
                     out.append((seed, sub, to, e, ei, 0.0, False))
                 for ov in (0.003, 0.02):
                     out.append((seed, sub, to, e, (), ov, False))
+    # wall-clock steps during the wait
+    for sub in (SUBJECTS[1], SUBJECTS[4], SUBJECTS[7]):
+        for to in (0.05, 0.3):
+            for e in (None, 0.021, 0.2, 0.31):
+                for at in (0.0005, 0.03):
+                    for delta in (-1, 1, -3600, 3600):
+                        out.append((seed, sub, to, e, (), 0.0, False, (at, delta)))
     return out
 
 
@@ -304,6 +315,79 @@ def proc_scenarios(seed, thorough):
     return out
 
 
+# ------------------------------------------------------------------ psutil.Popen on the real kernel
+POPEN_ENDS = [("exit", 0), ("exit", 3), ("exit", 255), ("sig", 9), ("sig", 15)]
+POPEN_SEQS = [("wait", "wait"), ("wait", "poll", "wait"), ("wait", "communicate", "wait"), ("wait", "ctx", "wait"),
+              ("poll-until", "wait", "poll", "wait"), ("wait0-until", "wait"), ("wait", "returncode", "poll", "poll", "wait")]
+
+
+def live_popen(arg):
+    """psutil.Popen (the subprocess.Popen wrapper) with real children: the status reported first is the status reported ever
+    after, whatever the subprocess half of the object is asked in between"""
+    (how, n), seq = arg
+    import signal
+    import subprocess
+    import sys
+    import time
+    from vf.harness import seams
+    try:
+        seams().uninstall()
+    except Exception:  # noqa: BLE001
+        pass
+    import psutil
+    code = "import sys; sys.exit(%d)" % n if how == "exit" else "import os, signal; os.kill(os.getpid(), %d)" % n
+    want = n if how == "exit" else -n
+    bad = []
+    p = psutil.Popen([sys.executable, "-S", "-c", code], stdout=subprocess.PIPE, stderr=subprocess.DEVNULL)
+    try:
+        seen = []
+        for step in seq:
+            if step == "wait":
+                o = outcome(p.wait, 30)
+                seen.append(("wait", o))
+                if o[0] != "ok" or o[1] != want:
+                    bad.append(("popen:wait-status", "child ended by %s %d; sequence %r: wait() -> %r after %r" % (how, n, seq, o, seen[:-1])))
+                    break
+            elif step == "poll":
+                seen.append(("poll", outcome(p.poll)))
+            elif step == "returncode":
+                seen.append(("returncode", p.returncode))
+            elif step == "communicate":
+                seen.append(("communicate", outcome(p.communicate)[0]))
+            elif step == "ctx":
+                seen.append(("ctx", outcome(p.__exit__, None, None, None)[0]))
+            elif step == "poll-until":
+                t0 = time.time()
+                while p.poll() is None and time.time() - t0 < 30:
+                    time.sleep(0.005)
+                seen.append(("poll-until", p.returncode))
+            elif step == "wait0-until":
+                t0 = time.time()
+                while time.time() - t0 < 30:
+                    o = outcome(p.wait, 0)
+                    if o[0] == "ok":
+                        break
+                    time.sleep(0.005)
+                seen.append(("wait0-until", o))
+                if o != ("ok", want):
+                    bad.append(("popen:wait-status", "sequence %r: wait(0) loop ended with %r, expected %r" % (seq, o, want)))
+    finally:
+        try:
+            p.kill()
+        except Exception:  # noqa: BLE001
+            pass
+        try:
+            p.wait(5)
+        except Exception:  # noqa: BLE001
+            pass
+        for f in (p.stdout,):
+            try:
+                f.close()
+            except Exception:  # noqa: BLE001
+                pass
+    return bad, "popen:" + ("ok" if not bad else "bad")
+
+
 def t_wait(arg):
     r = run_wait(arg)
     return judge_wait(arg, r), (r["out"][0], r["out"][1] if r["out"][0] == "exc" else "value")
@@ -316,14 +400,20 @@ def run(ctx):
     for a, (bad, lab) in zip(sc, res):
         labels[str(lab)] = labels.get(str(lab), 0) + 1
         for cause, msg in bad:
-            viols.append({"cause": cause, "msg": msg, "case": {"wait": [a[0], list(a[1]), a[2], a[3], list(a[4]), a[5], a[6]]}})
+            viols.append({"cause": cause, "msg": msg, "case": {"wait": [a[0], list(a[1]), a[2], a[3], list(a[4]), a[5], a[6]] + [list(x) for x in a[7:]]}})
     ps = proc_scenarios(ctx.seed, ctx.thorough)
     res2 = ctx.pmap(run_procs, ps)
     for a, (bad, lab) in zip(ps, res2):
         labels["procs:" + lab] = labels.get("procs:" + lab, 0) + 1
         for cause, msg in bad:
             viols.append({"cause": cause, "msg": msg, "case": {"procs": [a[0], list(a[1]), list(a[2]), a[3], a[4], a[5]] + list(a[6:])}})
-    cov = {"evaluations": len(sc) + len(ps), "distinct_nontrivial": len({repr(a) for a in sc}) + len({repr(a) for a in ps}),
+    pc = [(e, q) for e in POPEN_ENDS for q in POPEN_SEQS]
+    for a, (bad, lab) in zip(pc, ctx.pmap(live_popen, pc, chunk=1)):
+        labels[lab] = labels.get(lab, 0) + 1
+        for cause, msg in bad:
+            viols.append({"cause": cause, "msg": msg, "case": {"popen": [list(a[0]), list(a[1])]}})
+    cov = {"popen_live_sequences": len(pc),
+           "evaluations": len(sc) + len(ps) + len(pc), "distinct_nontrivial": len({repr(a) for a in sc}) + len({repr(a) for a in ps}) + len(pc),
            "rule": "one evaluation = one execution of Process.wait()/wait_procs() in virtual time for one (subject kind, timeout, exit "
                    "instant, EINTR set, sleep overshoot) / (process kinds, exit-instant vector, timeout, callback); exit instants cover "
                    "every polling instant of the dry run, every midpoint and the deadline neighbourhood; distinct by construction",
@@ -335,9 +425,12 @@ def run(ctx):
 
 
 def replay(ctx, case):
+    if "popen" in case:
+        bad, _ = live_popen((tuple(case["popen"][0]), tuple(case["popen"][1])))
+        return {"violated": bool(bad), "viols": bad}
     if "wait" in case:
         a = case["wait"]
-        arg = (a[0], tuple(a[1]), a[2], a[3], tuple(a[4]), a[5], a[6])
+        arg = (a[0], tuple(a[1]), a[2], a[3], tuple(a[4]), a[5], a[6]) + tuple(tuple(x) for x in a[7:])
         r = run_wait(arg)
         bad = judge_wait(arg, r)
         return {"violated": bool(bad), "viols": bad, "trace": r["trace"][-12:], "out": r["out"]}
